@@ -27,6 +27,16 @@ fn main() {
 		usage();
 	}
 	install_panic_hook();
+	// memory cap for the engine: a subject that allocates without bound (a length taken from the input, a
+	// loop that never ends) must take down this process - allocation failure aborts - and not the machine.
+	// The abort is a machinery exit (signal), never a verdict; VERIF_MEM_GB overrides the 40 GB default.
+	{
+		let gb: u64 = std::env::var("VERIF_MEM_GB").ok().and_then(|v| v.parse().ok()).unwrap_or(40);
+		let lim = libc::rlimit { rlim_cur: gb << 30, rlim_max: gb << 30 };
+		unsafe {
+			libc::setrlimit(libc::RLIMIT_AS, &lim);
+		}
+	}
 	if let Err(e) = spec::self_check() {
 		eprintln!("machinery: model self-check failed: {}", e);
 		std::process::exit(2);
